@@ -4,6 +4,7 @@ mod world;
 mod c01;
 mod c03;
 mod c04;
+mod c05;
 mod c06;
 mod reg;
 mod c14;
@@ -47,6 +48,7 @@ fn main() {
     "C02" => c15::run_c02(tier, seed),
     "C03" => c03::run(tier, seed),
     "C04" => c04::run(tier, seed),
+    "C05" => c05::run(tier, seed),
     "C06" => c06::run(tier, seed),
     "C07" => reg::run_c07(tier, seed),
     "C14" => c14::run(tier, seed),
